@@ -29,6 +29,7 @@ fn render_sloppy(e: &E) -> String {
     fn bare(e: &E) -> String {
         match e {
             Bin(n, a, b) if *n == "+" || *n == "-" => format!("({}) {} ({})", render_sloppy(a), n, render_sloppy(b)),
+            Cmp(n, a, b) if *n == "&&" || *n == "||" => format!("({}) {} ({})", bare(a), n, bare(b)),
             Cmp(n, a, b) => format!("{} {} {}", bare(a), n, bare(b)),
             _ => render_sloppy(e),
         }
@@ -99,6 +100,12 @@ fn eval(e: &E, p: &[f64]) -> V {
                 "^" => x.powf(y),
                 _ => f64::NAN,
             })
+        }
+        // compound conditions: `&&` / `||` of comparisons (operators WITHOUT a derivative rule, carried
+        // unchanged by `partial_relaxed` with `MissingOpMode::None`)
+        Cmp(n, a, b) if *n == "&&" || *n == "||" => {
+            let (x, y) = (eval(a, p) == V::B(true), eval(b, p) == V::B(true));
+            V::B(if *n == "&&" { x && y } else { x || y })
         }
         Cmp(n, a, b) => {
             let (x, y) = (f(a), f(b));
@@ -246,7 +253,13 @@ fn gen_ite(r: &mut Rng, depth: usize) -> E {
     if !has_var(&lhs) && !has_var(&rhs) {
         lhs = Var(r.below(VARS.len()));
     }
-    let c = Cmp(n, Rc::new(lhs), Rc::new(rhs));
+    let mut c = Cmp(n, Rc::new(lhs), Rc::new(rhs));
+    if r.chance(1, 5) {
+        // compound condition: no derivative rule for `&&` / `||` - differentiated through the relaxed API
+        let n2 = *r.pick(&[">", "<", ">=", "<="]);
+        let c2 = Cmp(n2, Rc::new(Var(r.below(VARS.len()))), Rc::new(gen_arith(r, depth + 1, false)));
+        c = Cmp(*r.pick(&["&&", "||"]), Rc::new(c), Rc::new(c2));
+    }
     Ite(Rc::new(c), Rc::new(gen_arith(r, depth, true)), Rc::new(gen_arith(r, depth, true)))
 }
 
@@ -321,7 +334,7 @@ fn parse(s: &[char], pos: &mut usize) -> E {
         }
         *pos += 1; // ')'
         let ops: &[&'static str] = &["+", "-", "*", "/", "^"];
-        let cmps: &[&'static str] = &[">", "<", ">=", "<=", "==", "!="];
+        let cmps: &[&'static str] = &[">", "<", ">=", "<=", "==", "!=", "&&", "||"];
         if let Some(o) = ops.iter().find(|o| **o == op) {
             return Bin(o, Rc::new(a), Rc::new(second));
         }
@@ -379,6 +392,7 @@ fn tame(e: &E, p: &[f64]) -> bool {
                 }) && okv(val(e))
             }
         }
+        Cmp(n, a, c) if *n == "&&" || *n == "||" => tame(a, p) && tame(c, p),
         Cmp(_, a, c) => tame(a, p) && tame(c, p) && (val(a) - val(c)).abs() > 1e-3,
         Ite(c, f, g) => tame(c, p) && tame(f, p) && tame(g, p),
     }
@@ -401,6 +415,19 @@ pub fn run(f: &[&str]) -> String {
             Err(_) => return "r=PARSE-ERROR".to_string(),
         };
         let names = expr.var_names().to_vec();
+        // `&&` / `||` have no derivative rule: the strict API must refuse, the relaxed API in mode `None`
+        // carries them (and so the condition) unchanged
+        let relaxed = text.contains("&&") || text.contains("||");
+        fn diff<'a, X: exmex::Differentiate<'a, Val<i32, f64>> + Clone>(e: X, idxs: &[usize], relaxed: bool) -> exmex::ExResult<X> {
+            if relaxed {
+                if !idxs.is_empty() && e.clone().partial_iter(idxs.iter().copied()).is_ok() {
+                    return Err(exmex::ExError::new("strict differentiation accepted an operator without rule"));
+                }
+                e.partial_iter_relaxed(idxs.iter().copied(), exmex::MissingOpMode::None)
+            } else {
+                e.partial_iter(idxs.iter().copied())
+            }
+        }
         // indices refer to the sorted variable list of the expression
         if idxs.iter().any(|i| *i >= names.len()) {
             return match expr.clone().partial_iter(idxs.iter().copied()) {
@@ -413,7 +440,7 @@ pub fn run(f: &[&str]) -> String {
             let v = VARS.iter().position(|v| *v == names[*i]).unwrap();
             reference = deriv(&reference, v);
         }
-        let d = match expr.clone().partial_iter(idxs.iter().copied()) {
+        let d = match diff(expr.clone(), &idxs, relaxed) {
             Ok(d) => d,
             Err(_) => return "r=UNEXPECTED-ERROR".to_string(),
         };
@@ -425,7 +452,7 @@ pub fn run(f: &[&str]) -> String {
         type DV<'a> = exmex::DeepEx<'a, Val<i32, f64>, exmex::ValOpsFactory<i32, f64>, exmex::ValMatcher>;
         let text_static: &'static str = Box::leak(text.clone().into_boxed_str());
         let dd = match DV::parse(text_static) {
-            Ok(e) => match e.partial_iter(idxs.iter().copied()) {
+            Ok(e) => match diff(e, &idxs, relaxed) {
                 Ok(d) => d,
                 Err(_) => return "r=UNEXPECTED-ERROR-DEEP".to_string(),
             },
